@@ -337,6 +337,11 @@ def build_relay(variant="plain"):
         return exe
 
 
+def build_relay_asan():
+    """The relay under ASan/UBSan: a memory error in the relay ends it with exit status 99."""
+    return build_relay("asan")
+
+
 if __name__ == "__main__":
     v = sys.argv[1] if len(sys.argv) > 1 else "asan"
     d, th = build_lib(v)
